@@ -34,9 +34,11 @@ type FileInfo struct {
 	Aux         [][2][]byte
 	Functions   [][]byte
 	Keys        []Key
-	KeyOffsets  []int // offset of each key's type byte
-	HasChecksum bool  // false when the footer is all zero
-	SelectDBs   int   // number of SELECTDB opcodes met
+	KeyOffsets  []int    // offset of each key's type byte
+	ValueSpans  [][2]int // [start,end) of each key's serialised value in the file
+	FuncSpans   [][2]int // [start,end) of each FUNCTION2 payload (the RDB string after the opcode)
+	HasChecksum bool     // false when the footer is all zero
+	SelectDBs   int      // number of SELECTDB opcodes met
 	ResizeDBs   int
 	SlotInfos   int
 }
@@ -606,6 +608,9 @@ func (r *rd) zipmap(blob []byte) [][2][]byte {
 	itemLen := func() int {
 		c := m.u8()
 		if c < 254 {
+			if c == 253 {
+				m.f.add(fZmItem253)
+			}
 			return int(c)
 		}
 		if c == 255 {
@@ -706,6 +711,7 @@ func (r *rd) stream(t byte) *Stream {
 			r.fail("stream listpack master entry is not terminated by 0")
 		}
 		var seenLive, seenDead int64
+		ownDiff := false
 		for pos < len(items) {
 			flags := nextInt("flags")
 			if flags&^3 != 0 {
@@ -725,6 +731,9 @@ func (r *rd) stream(t byte) *Stream {
 				}
 				want = nmf + 3
 				r.f.add(fStreamSameFields)
+				if ownDiff {
+					r.f.add(fStreamSameAfterOwn)
+				}
 			} else {
 				nf := nextInt("entry num-fields")
 				if nf < 0 || nf > int64(len(items)) {
@@ -737,6 +746,9 @@ func (r *rd) stream(t byte) *Stream {
 				}
 				want = 2*nf + 4
 				r.f.add(fStreamOwnFields)
+				if nf != nmf {
+					ownDiff = true
+				}
 			}
 			if got := nextInt("lp-count"); got != want {
 				r.fail("stream entry lp-count %d, want %d", got, want)
@@ -938,7 +950,9 @@ func DecodeFileInfo(file []byte) (fi *FileInfo, err error) {
 			fi.Aux = append(fi.Aux, [2][]byte{k, v})
 			f = featSet{}
 		case OpFunction2:
+			fstart := r.p
 			fi.Functions = append(fi.Functions, r.str())
+			fi.FuncSpans = append(fi.FuncSpans, [2]int{fstart, r.p})
 			f = featSet{}
 		case OpSelectDB:
 			n := r.length()
@@ -999,7 +1013,9 @@ func DecodeFileInfo(file []byte) (fi *FileInfo, err error) {
 			k.DB = db
 			fi.KeyOffsets = append(fi.KeyOffsets, r.p-1)
 			k.Key = r.str()
+			vstart := r.p
 			k.Value = r.value(op)
+			fi.ValueSpans = append(fi.ValueSpans, [2]int{vstart, r.p})
 			k.Enc.Type = op
 			k.Enc.Observed = f.names()
 			f = featSet{}
